@@ -25,10 +25,10 @@ from .c05 import domain
 PROP = "C07"
 RUNS = {"quick": 700, "thorough": 20000}
 DEADLINE = {"quick": 240, "thorough": 3300}
-BATCH = {"quick": 6, "thorough": 10}
+BATCH = {"quick": 3, "thorough": 6}
 DEPTH_BOUND = 150
-EVENTS0 = 20_000_000
-EVENTS_PER_NODE = 4000
+EVENTS0 = 6_000_000      # most expensive legitimate call measured: ~6e5 events (refinement through a warm-up chain)
+EVENTS_PER_NODE = 1000    # legitimate tree construction: ~30 events per designed leaf
 RULE = ("case = one of {machine: config + explicit op list with cache faults; sweep: config + (N, grid dtype, step "
         "divisor, backward); sdeint: solver + SDE spec + (steps, step divisor, Brownian front)} from seeded named PRNG "
         "streams; distinct = distinct hash of the case; non-trivial = at least 100 service calls were monitored (so the "
@@ -198,16 +198,7 @@ def sweep_grid(t0, t1, n, grid, div, tail_ulps=0):
 
 def _run_machine(case, log, probes):
     cfg = case["config"]
-    st = Streams(1)
-    with seams.CallMonitor(EVENTS0 + EVENTS_PER_NODE * 4 * bm.BMExec.MAX_DESIGNED) as m:
-        try:
-            built = bm.build(cfg, st.get("entropy"))
-        except SimBudgetExceeded as e:
-            raise Violation("budget", {"where": "constructor", "msg": str(e)}, "ctor")
-        except Exception as e:  # noqa
-            raise Violation(f"exception:{type(e).__name__}@{bm._where(e)}", {"where": "constructor", "msg": str(e)[:200]}, "ctor")
-    if m.max_depth > DEPTH_BOUND:
-        raise Violation("depth", {"depth": m.max_depth, "where": "constructor"}, "ctor")
+    built = _build_monitored(cfg)
     mon = Mon(built, log, cfg)
     tol = xf(cfg["tol"])
     for i, op in enumerate(case["ops"]):
@@ -236,10 +227,23 @@ def _run_machine(case, log, probes):
     return built, mon
 
 
+def _build_monitored(cfg):
+    st = Streams(1)
+    span = xf(cfg["t1"]) - xf(cfg["t0"])
+    nd = span / (0.8 * xf(cfg["dt"]) * bm.designed_c(cfg)) if cfg["dt"] is not None else 0
+    with seams.CallMonitor(int(EVENTS0 + EVENTS_PER_NODE * min(nd, 4 * bm.BMExec.MAX_DESIGNED))) as m:
+        try:
+            built = bm.build(cfg, st.get("entropy"))
+        except SimBudgetExceeded as e:
+            raise Violation("budget", {"where": "constructor", "msg": str(e)}, "ctor")
+    if m.max_depth > DEPTH_BOUND:
+        raise Violation("depth", {"depth": m.max_depth, "where": "constructor"}, "ctor")
+    return built
+
+
 def _run_sweep(case, log, probes):
     cfg = case["config"]
-    st = Streams(1)
-    built = bm.build(cfg, st.get("entropy"))
+    built = _build_monitored(cfg)
     mon = Mon(built, log, cfg)
     d0, d1 = built.dom
     pts = sweep_grid(d0, d1, case["n"], case["grid"], case["div"], case.get("tail_ulps", 0))
@@ -321,6 +325,8 @@ def _run_sdeint(case, log, probes):
             bmo = rec = stubs.make_recorder(inner)
             probes["cache0"] = 1
         budget = EVENTS0 + 8000 * steps + EVENTS_PER_NODE * 8192
+        if front == "interval_cache0":
+            budget += 200_000 * steps  # cache_size=0 recomputes the whole ancestor chain on every request (by design)
         with seams.CallMonitor(budget) as mon:
             try:
                 with torch.no_grad():
@@ -463,3 +469,44 @@ def simplify(case):
 def WARMUP_SKIP(case):
     """Parent-process warm-up runs only the cheap cases."""
     return (case["mode"] == "sweep" and case["n"] > 400) or (case["mode"] == "sdeint" and case["steps"] > 200)
+
+
+def _cfg(**kw):
+    c = {"front": "interval", "t0": fx(0.0), "t1": fx(1.0), "size": [2], "dtype": "float64", "levy": "none",
+         "cache_size": 45, "dt": None, "tol": fx(0.0), "halfway": False, "pool_size": 8, "entropy": 0,
+         "supply_W": False, "supply_H": False, "warmup": None, "gd": None}
+    c.update(kw)
+    return c
+
+
+def directed(tier):
+    """Explicit regression inputs, always run first: the minimal failing inputs of the repaired defects D2-D6."""
+    sde = {"kind": "linear", "noise_type": "diagonal", "sde_type": "ito", "d": 1, "m": 1, "seed": 1, "stiff": 1.0, "batch": 2}
+    eul = {"method": "euler", "sde_type": "ito", "noise_type": "diagonal", "levy": "none", "options": None}
+    out = [
+        # D2: long run of consecutive steps, default cache (depth monitor), and tiny cache with 1000 steps
+        {"mode": "sweep", "config": _cfg(), "n": 3000, "grid": "float64", "div": 1.0, "backward": True, "U": False, "A": False, "tail_ulps": 0},
+        {"mode": "sweep", "config": _cfg(cache_size=2), "n": 400, "grid": "float64", "div": 1.0, "backward": False, "U": False, "A": False, "tail_ulps": 0},
+        # D3: cache_size=0 with a dt hint, and without one but > 100 queries
+        {"mode": "machine", "config": _cfg(cache_size=0, dt=fx(0.01)), "ops": [{"op": "q", "ta": fx(0.1), "tb": fx(0.2), "U": False, "A": False}]},
+        {"mode": "sweep", "config": _cfg(cache_size=0), "n": 150, "grid": "float64", "div": 1.0, "backward": False, "U": False, "A": False, "tail_ulps": 0},
+        # D4: end points that round to the same time, dyadic tree
+        {"mode": "machine", "config": _cfg(tol=fx(1e-3), halfway=True, gd=3),
+         "ops": [{"op": "q", "ta": fx(0.1234), "tb": fx(0.12349), "U": False, "A": False, "og": True}]},
+        {"mode": "machine", "config": _cfg(tol=fx(5e-4), halfway=True, gd=2),
+         "ops": [{"op": "q", "ta": fx(0.1236), "tb": fx(0.1244), "U": False, "A": False, "og": True}]},
+        # D5: piece length below the tolerance
+        {"mode": "machine", "config": _cfg(tol=fx(1e-3), dt=fx(1e-6), gd=3),
+         "ops": [{"op": "q", "ta": fx(0.1), "tb": fx(0.2), "U": False, "A": False}]},
+        # D6: a very short clipped last step as the 101st query of sdeint with its default Brownian motion
+        {"mode": "sdeint", "tail_ulps": 0, "solver": eul, "sde": sde, "front": "default", "steps": 100, "dtype": "float64",
+         "div": 1.000000001, "t0": fx(0.0), "span": fx(1.0), "n_out": 2, "entropy_seed": 5},
+        {"mode": "sdeint", "tail_ulps": 1, "solver": eul, "sde": sde, "front": "default", "steps": 101, "dtype": "float64",
+         "div": 1.0, "t0": fx(0.0), "span": fx(1.0), "n_out": 2, "entropy_seed": 6},
+    ]
+    if tier == "thorough":
+        out.append({"mode": "sweep", "config": _cfg(), "n": 30000, "grid": "float64", "div": 1.0, "backward": True,
+                    "U": False, "A": False, "tail_ulps": 0})
+    for c in out:
+        c.update(property=PROP, directed=True, tier=tier)
+    return out
